@@ -19,6 +19,7 @@ UpE(p)       == [ev |-> "Up", p |-> p]
 DownE(p)     == [ev |-> "Down", p |-> p]
 VAnnE(r)     == [ev |-> "VAnn", r |-> r]
 VWdE(k)      == [ev |-> "VWd", r |-> VRoute(k, {}, 0)]
+PWdE         == [ev |-> "VWd", r |-> PRoute({}, 0, 0)]
 MAnnE(m)     == [ev |-> "MAnn", m |-> m]
 MWdE(m)      == [ev |-> "MWd", m |-> m]
 AddVrfE(w)   == [ev |-> "AddVrf", vrf |-> w]
@@ -35,21 +36,31 @@ Warm == CASE WarmName = "none" -> <<>>
           [] WarmName = "vrf"  -> <<UpE("N2"), UpE("N1"), AddVrfE(V1a), Ev("CeUp")>>
           [] WarmName = "rtc"  -> <<UpE("N2"), VAnnE(VRoute("k1", {"rt1", "rt2"}, 1)), VAnnE(VRoute("k2", {"rt2", "rt3"}, 1)),
                                     UpE("N1"), MAnnE(Mem(65000, "rt1", 0)), MAnnE(Mem(65000, "rt2", 0)), Ev("MEor")>>
+          [] WarmName = "mem"  -> <<UpE("N2"), VAnnE(VRoute("k1", {"rt1", "rt2"}, 1)), UpE("N1"), Ev("MEor")>>
+          [] WarmName = "idx"  -> <<UpE("N2"), UpE("N1"), Ev("MEor")>>
+          [] WarmName = "life" -> <<UpE("N2"), UpE("N3"), UpE("N1"), MAnnE(Mem(0, "def", 0)), Ev("MEor"),
+                                    AddVrfE(V1a), Ev("CeUp"), AddVrfE(V2a), ApiAddE("v2", 1)>>
+          [] WarmName = "life2" -> <<UpE("N2"), UpE("N3"), UpE("N1"), MAnnE(Mem(0, "def", 0)), Ev("MEor"),
+                                    AddVrfE(V1a), Ev("CeUp"), AddVrfE(V2a), ApiAddE("v2", 1),
+                                    VAnnE(PRoute({"rt1"}, 1, 200))>>
           [] WarmName = "all"  -> <<UpE("N2"), UpE("N1"), AddVrfE(V1a), Ev("CeUp"), AddVrfE(V2a),
                                     VAnnE(VRoute("k1", {"rt1", "rt2"}, 1)), MAnnE(Mem(65000, "rt2", 0)), Ev("MEor")>>
 
 (* alphabets *)
 RtSets  == CASE Alpha = "small" -> {{}, {"rt1"}, {"rt1", "rt2"}, {"rt3"}}
-             [] Alpha = "coll"  -> {{"rt1"}, {"rt3"}}
+             [] Alpha \in {"coll", "life"} -> {{"rt1"}, {"rt3"}}
+             [] Alpha \in {"mem", "idx"} -> {{"rt1"}}
              [] OTHER -> RtSetsAll
-Small   == Alpha \in {"small", "coll"}
+Small   == Alpha \in {"small", "coll", "life", "mem", "idx"}
+PEon    == Alpha \in {"full", "life"}            \* the iBGP PE N3 takes part
+LpSet   == {200, 50}
 Tags    == IF Small THEN {1} ELSE {1, 2}
-MemAs   == IF Small THEN {65000} ELSE {65000, 65009}
-MemRts  == IF Small THEN {"rt1", "rt2", "def"} ELSE RTs \cup {"def"}
+MemAs   == IF Alpha = "mem" THEN {65000, 65009} ELSE IF Small THEN {65000} ELSE {65000, 65009}
+MemRts  == IF Alpha = "mem" THEN {"rt1", "def"} ELSE IF Alpha = "idx" THEN {"rt1"} ELSE IF Small THEN {"rt1", "rt2", "def"} ELSE RTs \cup {"def"}
 MemIds  == IF AddPath THEN {1, 2} ELSE {0}
-VrfPool == IF Small THEN {V1a, V2a} ELSE VrfPoolAll
+VrfPool == IF Alpha = "life" THEN {V2a, V2c} ELSE IF Small THEN {V1a, V2a} ELSE VrfPoolAll
 TickDs  == IF Small THEN {5} ELSE {1, 2, 5}
-KSlots  == CASE Alpha = "small" -> {"k1"} [] Alpha = "coll" -> {"k1", "k3"} [] OTHER -> Slots
+KSlots  == CASE Alpha \in {"small", "mem", "idx"} -> {"k1"} [] Alpha = "coll" -> {"k1", "k3"} [] Alpha = "life" -> {"k4"} [] OTHER -> Slots
 (* Only: restriction of the free steps to some event kinds ({} = all kinds) *)
 On(k)   == Only = {} \/ k \in Only
 
@@ -79,7 +90,10 @@ FStep(e) == On(e.ev) /\ Step(e)
 
 Free ==
   \/ \E p \in {"N1", "N2"} : FStep(UpE(p))
-  \/ \E p \in {"N1", "N2"} : ~Exh /\ Rarely(6) /\ FStep(DownE(p))
+  \/ PEon /\ FStep(UpE("N3"))
+  \/ \E p \in {"N1", "N2", "N3"} : ~Exh /\ Rarely(6) /\ FStep(DownE(p))
+  \/ PEon /\ \E s \in Pick(RtSets) : \E v \in Pick(Tags) : \E lp \in Pick(LpSet) : FStep(VAnnE(PRoute(s, v, lp)))
+  \/ PEon /\ FStep(PWdE)
   \/ FStep(Ev("CeUp"))
   \/ Rarely(4) /\ FStep(Ev("CeDown"))
   \/ \E k \in Pick(KSlots) : \E s \in Pick(RtSets) : \E v \in Pick(Tags) : FStep(VAnnE(VRoute(k, s, v)))
